@@ -7,7 +7,7 @@ their own jobs (ghost pool with front / back indices, method I); FIFO order is a
 """
 import re
 
-from vf.cxx2c import Rewriter, attach_loop_contracts, expand_lock
+from vf.cxx2c import Rewriter, attach_loop_contracts, expand_lock, inline_void_helpers
 from vf.extract import ExtractionBreak, find_body
 from vf.runner import Job
 
@@ -148,8 +148,25 @@ def pool_jobs(ctx, props):
     repo = ctx.repo
     out = []
 
+    class _Missing:
+        def __init__(self, err):
+            self._err = err
+
+        def __getattr__(self, k):
+            raise ExtractionBreak(self._err)
+
+    KNOWN = {'Stop', 'WasStop', 'WantStop', 'NoJobs', 'Alive', 'Submit', 'PushBack', 'PushFront', 'PopFront', 'Empty', 'Drop', 'Call', 'Loop', 'HardStop', 'SoftStop', 'Wait', 'IncRef', 'DecRef'}
+
     def body(sig, name):
-        return find_body(repo, F_POOL, sig, name)
+        try:
+            b = find_body(repo, F_POOL, sig, name)
+        except ExtractionBreak as e:
+            return _Missing(str(e))
+        # a few statements moved into a new void helper of the same file are put back textually (vf.cxx2c.inline_void_helpers); the helper is then part of what is verified
+        t, hb = inline_void_helpers(repo, F_POOL, b.text, KNOWN)
+        if hb:
+            b.text, b.helpers = t, hb
+        return b
     b_alive = body(r'bool\s+FairThreadPool::Alive\s*\(', 'FairThreadPool::Alive')
     b_submit = body(r'void\s+FairThreadPool::Submit\s*\(', 'FairThreadPool::Submit')
     b_soft = body(r'void\s+FairThreadPool::SoftStop\s*\(', 'FairThreadPool::SoftStop')
@@ -163,20 +180,22 @@ def pool_jobs(ctx, props):
 
     def mk(name, b, c_body, contract, harness_body, canaries, replace, loops=False, expect=(), timeout=180, flags=()):
         src = POOL + contract + '{ g_self = self; /* ghost prologue */' + c_body + '}\n' + 'void harness(void) {\n  ghost_havoc();\n  Pool* self;\n' + harness_body + '}\n'
-        out.append(Job('pool/' + name, props, src, 'harness', enforce='F_' + name, replace=replace, loop_contracts=loops, funcs=[b],
+        out.append(Job('pool/' + name, props, src, 'harness', enforce='F_' + name, replace=replace, loop_contracts=loops, funcs=[b] + list(getattr(b, 'helpers', [])),
                        canaries=canaries, expect=[r'postcondition'] + list(expect), meta={'fn': name}, timeout=timeout, cbmc_flags=list(flags)))
 
     # Alive
-    c = rw('Alive').rewrite(expand_lock('Alive', b_alive.text))
-    mk('Alive', b_alive, c, '''int F_Alive(Pool* self)
+    def s_alive():
+        c = rw('Alive').rewrite(expand_lock('Alive', b_alive.text))
+        mk('Alive', b_alive, c, '''int F_Alive(Pool* self)
 %s
 __CPROVER_assigns(self->_jobs_count, g, g_self, g_lock_held)
 __CPROVER_ensures(g_lock_held == 0)
 __CPROVER_ensures(RET == !g.stopped)      /* decided under the lock */
 ''' % FRESH, '  int r = F_Alive(self);\n  if (r) VF_CANARY("alive"); else VF_CANARY("stopped");\n', 2, ['WasStop'], expect=[r'monitor invariant'])
     # Submit
-    c = rw('Submit', methods=['WasStop', 'WantStop', 'NoJobs', 'Alive']).rewrite(expand_lock('Submit', b_submit.text)).replace('Alive(self)', 'Alive_cs(self)')
-    mk('Submit', b_submit, c, '''void F_Submit(Pool* self, Job* job)
+    def s_submit():
+        c = rw('Submit', methods=['WasStop', 'WantStop', 'NoJobs', 'Alive']).rewrite(expand_lock('Submit', b_submit.text)).replace('Alive(self)', 'Alive_cs(self)')
+        mk('Submit', b_submit, c, '''void F_Submit(Pool* self, Job* job)
 %s
 __CPROVER_requires(__CPROVER_is_fresh(job, sizeof(*job)) && g.pushed == job && g.pushes == 0 && g.drops == 0 && g_notify_one == 0)
 __CPROVER_assigns(self->_jobs_count, g, g_self, g_lock_held, g_notify_one, job->next)
@@ -185,10 +204,11 @@ __CPROVER_ensures(g_lock_held == 0)
 __CPROVER_ensures((g.pushes == 1 && g.drops == 0 && g_notify_one == 1) || (g.pushes == 0 && g.drops == 1 && g.stopped))
 __CPROVER_ensures(g.calls == 0)
 ''' % FRESH, '  Job* job; g.pushed = job; g_notify_one = 0;\n  F_Submit(self, job);\n  if (g.pushes) VF_CANARY("accepted"); else VF_CANARY("dropped");\n', 2,
-       ['WasStop', 'PushBack', 'Drop', 'notify_one'], expect=[r'monitor invariant', r'count arithmetic'])
+           ['WasStop', 'PushBack', 'Drop', 'notify_one'], expect=[r'monitor invariant', r'count arithmetic'])
     # SoftStop
-    c = rw('SoftStop').rewrite(expand_lock('SoftStop', b_soft.text))
-    mk('SoftStop', b_soft, c, '''void F_SoftStop(Pool* self)
+    def s_soft():
+        c = rw('SoftStop').rewrite(expand_lock('SoftStop', b_soft.text))
+        mk('SoftStop', b_soft, c, '''void F_SoftStop(Pool* self)
 %s
 __CPROVER_requires(g_notify_all == 0)
 __CPROVER_assigns(self->_jobs_count, g, g_self, g_lock_held, g_notify_all)
@@ -199,12 +219,13 @@ __CPROVER_ensures(g_notify_all == 1 ==> (g.exit_queued == 0 && g.exit_running ==
 __CPROVER_ensures(g_notify_all == 0 ==> (g.exit_queued + g.exit_running > 0 || g.hard))
 __CPROVER_ensures(g.drops == 0 && g.calls == 0)
 ''' % FRESH, '  g_notify_all = 0;\n  F_SoftStop(self);\n  if (g_notify_all) VF_CANARY("stopped now"); else VF_CANARY("wish recorded");\n', 2,
-       ['NoJobs', 'Stop_locked'], expect=[r'monitor invariant'])
-    # the deciding step of SoftStop, in isolation: "stops now" only with nothing queued or running
+           ['NoJobs', 'Stop_locked'], expect=[r'monitor invariant'])
+        # the deciding step of SoftStop, in isolation: "stops now" only with nothing queued or running
     # Stop()
-    c = re.sub(r'Stop\s*\(\s*std::unique_lock\s*\{\s*_m\s*\}\s*\)\s*;', 'MON_LOCK(&self->_m); Stop_locked(self);', b_stop0.text)
-    c = rw('Stop()').rewrite(c)
-    mk('Stop', b_stop0, c, '''void F_Stop(Pool* self)
+    def s_stop():
+        c = re.sub(r'Stop\s*\(\s*std::unique_lock\s*\{\s*_m\s*\}\s*\)\s*;', 'MON_LOCK(&self->_m); Stop_locked(self);', b_stop0.text)
+        c = rw('Stop()').rewrite(c)
+        mk('Stop', b_stop0, c, '''void F_Stop(Pool* self)
 %s
 __CPROVER_requires(g_notify_all == 0)
 __CPROVER_assigns(self->_jobs_count, g, g_self, g_lock_held, g_notify_all)
@@ -212,14 +233,15 @@ __CPROVER_assigns(self->_jobs_count, g, g_self, g_lock_held, g_notify_all)
 __CPROVER_ensures(g_lock_held == 0 && g.stopped && g_notify_all == 1 && g.drops == 0 && g.exit_queued == g.queued)
 ''' % FRESH, '  g_notify_all = 0;\n  F_Stop(self);\n  VF_CANARY("end");\n', 1, ['Stop_locked'])
     # HardStop
-    pre = [(r'detail::List\s+jobs\s*\{\s*std::move\(\s*_jobs\s*\)\s*\}\s*;', 'List jobs; List_move(&jobs, &self->_jobs);', 1)]
-    c = expand_lock('HardStop', b_hard.text)
-    c = rw('HardStop', pre=pre, nomembers=['_jobs']).rewrite(c)
-    inv = ('__CPROVER_assigns(g.local_len, g.popped, g.popped_done, g.drops, g.queued, g.running, g.my_running)\n'
-           '__CPROVER_loop_invariant(g_lock_held == 0 && g.popped_done && g.local_len + g.drops == g_stolen && g.drops <= g_stolen && g.calls == 0 && g.stopped && g_notify_all == 1)')
-    c = attach_loop_contracts('HardStop', c, [inv])
-    c = c.replace('List_move(&jobs, &self->_jobs);', 'List_move(&jobs, &self->_jobs); g_stolen = g.local_len;')
-    mk('HardStop', b_hard, c, '''unsigned long g_stolen;
+    def s_hard():
+        pre = [(r'detail::List\s+jobs\s*\{\s*std::move\(\s*_jobs\s*\)\s*\}\s*;', 'List jobs; List_move(&jobs, &self->_jobs);', 1)]
+        c = expand_lock('HardStop', b_hard.text)
+        c = rw('HardStop', pre=pre, nomembers=['_jobs']).rewrite(c)
+        inv = ('__CPROVER_assigns(g.local_len, g.popped, g.popped_done, g.drops, g.queued, g.running, g.my_running)\n'
+               '__CPROVER_loop_invariant(g_lock_held == 0 && g.popped_done && g.local_len + g.drops == g_stolen && g.drops <= g_stolen && g.calls == 0 && g.stopped && g_notify_all == 1)')
+        c = attach_loop_contracts('HardStop', c, [inv])
+        c = c.replace('List_move(&jobs, &self->_jobs);', 'List_move(&jobs, &self->_jobs); g_stolen = g.local_len;')
+        mk('HardStop', b_hard, c, '''unsigned long g_stolen;
 void F_HardStop(Pool* self)
 %s
 __CPROVER_requires(g_notify_all == 0)
@@ -228,20 +250,21 @@ __CPROVER_assigns(self->_jobs_count, g, g_self, g_lock_held, g_notify_all, g_sto
 __CPROVER_ensures(g_lock_held == 0 && g.stopped && g_notify_all == 1)
 __CPROVER_ensures(g.drops == g_stolen && g.local_len == 0 && g.calls == 0 && g.popped_done)
 ''' % FRESH, '  g_notify_all = 0;\n  F_HardStop(self);\n  if (g_stolen > 1) VF_CANARY("several stolen"); else VF_CANARY("few");\n', 2,
-       ['List_move', 'Stop_locked', 'Empty', 'PopFront', 'Drop'], loops=True, expect=[r'invariant after step|loop_invariant_step'])
+           ['List_move', 'Stop_locked', 'Empty', 'PopFront', 'Drop'], loops=True, expect=[r'invariant after step|loop_invariant_step'])
     # Loop
-    c = expand_lock('Loop', b_loop.text)
-    c = rw('Loop', pre=[(r'_idle\.wait\(\s*lock\s*\)\s*;', 'WAIT_CV(&self->_idle, lock);', 1)], nomembers=[]).rewrite(c)
-    # discipline at the worker's own stop: (the final state - stopped, queue empty - is reached by a premature stop as well)
-    c, k = re.subn(r'\bStop_locked\(\s*self\s*\)', '(SOFT_STOP_OK(), Stop_locked(self))', c)
-    if k < 1:
-        raise ExtractionBreak('Loop: the worker no longer stops the pool through Stop(lock&&)')
-    outer = ('__CPROVER_assigns(self->_jobs_count, g, g_lock_held, g_notify_all, lock_held)\n'
-             '__CPROVER_loop_invariant(lock_held == 1 && g_lock_held == 1 && MON_INV(0) && !g.my_running && g.popped_done && g.drops == 0 && g_notify_all == 0)')
-    inner = ('__CPROVER_assigns(self->_jobs_count, g, g_lock_held, lock_held)\n'
-             '__CPROVER_loop_invariant(lock_held == 1 && g_lock_held == 1 && MON_INV(0) && !g.my_running && g.popped_done && g.drops == 0 && g_notify_all == 0)')
-    c = attach_loop_contracts('Loop', c, [outer, inner])
-    mk('Loop', b_loop, c, '''void F_Loop(Pool* self)
+    def s_loop():
+        c = expand_lock('Loop', b_loop.text)
+        c = rw('Loop', pre=[(r'_idle\.wait\(\s*lock\s*\)\s*;', 'WAIT_CV(&self->_idle, lock);', 1)], nomembers=[]).rewrite(c)
+        # discipline at the worker's own stop: (the final state - stopped, queue empty - is reached by a premature stop as well)
+        c, k = re.subn(r'\bStop_locked\(\s*self\s*\)', '(SOFT_STOP_OK(), Stop_locked(self))', c)
+        if k < 1:
+            raise ExtractionBreak('Loop: the worker no longer stops the pool through Stop(lock&&)')
+        outer = ('__CPROVER_assigns(self->_jobs_count, g, g_lock_held, g_notify_all, lock_held)\n'
+                 '__CPROVER_loop_invariant(lock_held == 1 && g_lock_held == 1 && MON_INV(0) && !g.my_running && g.popped_done && g.drops == 0 && g_notify_all == 0)')
+        inner = ('__CPROVER_assigns(self->_jobs_count, g, g_lock_held, lock_held)\n'
+                 '__CPROVER_loop_invariant(lock_held == 1 && g_lock_held == 1 && MON_INV(0) && !g.my_running && g.popped_done && g.drops == 0 && g_notify_all == 0)')
+        c = attach_loop_contracts('Loop', c, [outer, inner])
+        mk('Loop', b_loop, c, '''void F_Loop(Pool* self)
 %s
 __CPROVER_requires(g_notify_all == 0)
 __CPROVER_assigns(self->_jobs_count, g, g_self, g_lock_held, g_notify_all)
@@ -250,20 +273,21 @@ __CPROVER_assigns(self->_jobs_count, g, g_self, g_lock_held, g_notify_all)
 __CPROVER_ensures(g_lock_held == 0 && g.popped_done && !g.my_running && g.drops == 0)
 __CPROVER_ensures(g.exit_stopped && g.exit_queued == 0)
 ''' % FRESH, '  g_notify_all = 0;\n  F_Loop(self);\n  if (g.calls) VF_CANARY("ran jobs"); else VF_CANARY("idle exit");\n', 2,
-       ['Empty', 'PopFront', 'Call', 'NoJobs', 'WantStop', 'WasStop', 'Stop_locked'], loops=True,
-       expect=[r'invariant after step|loop_invariant_step', r'monitor invariant', r'count arithmetic'], timeout=300, flags=['--sat-solver', 'cadical'])
-    # the worker's plain `return` after WasStop(): record the state at that unlock (ghost only)
+           ['Empty', 'PopFront', 'Call', 'NoJobs', 'WantStop', 'WasStop', 'Stop_locked'], loops=True,
+           expect=[r'invariant after step|loop_invariant_step', r'monitor invariant', r'count arithmetic'], timeout=300, flags=['--sat-solver', 'cadical'])
+        # the worker's plain `return` after WasStop(): record the state at that unlock (ghost only)
     # predicates and Stop(lock&&)
-    for nm, b, ens in (('WasStop', b_was, 'RET == (int)(self->_jobs_count & 1)'), ('WantStop', b_want, 'RET == (int)((self->_jobs_count >> 1) & 1)'),
-                       ('NoJobs', b_nojobs, 'RET == ((self->_jobs_count >> 2) == 0)')):
-        cc = Rewriter(nm, post=[(r'\b(\d+)U\b', r'\1u', 0)]).rewrite(b.text)
-        src = COMMON + 'int F_%s(Pool* self)\n__CPROVER_requires(__CPROVER_is_fresh(self, sizeof(*self)))\n__CPROVER_assigns()\n__CPROVER_ensures(%s)\n{%s}\n' % (nm, ens, cc)
-        src += 'void harness(void) { Pool* self; int r = F_%s(self); if (r) VF_CANARY("true"); else VF_CANARY("false"); }\n' % nm
-        out.append(Job('pool/' + nm, props, src, 'harness', enforce='F_' + nm, funcs=[b], canaries=2, expect=[r'postcondition'], meta={'fn': nm}))
-    cc = b_stopl.text
-    cc = re.sub(r'lock\s*\.\s*unlock\s*\(\s*\)\s*;', 'MON_UNLOCK(&self->_m);', cc)
-    cc = rw('Stop(lock&&)').rewrite(cc)
-    src = POOL.replace('void Stop_locked(Pool* self)', 'void Stop_locked_decl(Pool* self)') + '''void F_StopLocked(Pool* self)
+    def s_pred():
+        for nm, b, ens in (('WasStop', b_was, 'RET == (int)(self->_jobs_count & 1)'), ('WantStop', b_want, 'RET == (int)((self->_jobs_count >> 1) & 1)'),
+                           ('NoJobs', b_nojobs, 'RET == ((self->_jobs_count >> 2) == 0)')):
+            cc = Rewriter(nm, post=[(r'\b(\d+)U\b', r'\1u', 0)]).rewrite(b.text)
+            src = COMMON + 'int F_%s(Pool* self)\n__CPROVER_requires(__CPROVER_is_fresh(self, sizeof(*self)))\n__CPROVER_assigns()\n__CPROVER_ensures(%s)\n{%s}\n' % (nm, ens, cc)
+            src += 'void harness(void) { Pool* self; int r = F_%s(self); if (r) VF_CANARY("true"); else VF_CANARY("false"); }\n' % nm
+            out.append(Job('pool/' + nm, props, src, 'harness', enforce='F_' + nm, funcs=[b], canaries=2, expect=[r'postcondition'], meta={'fn': nm}))
+        cc = b_stopl.text
+        cc = re.sub(r'lock\s*\.\s*unlock\s*\(\s*\)\s*;', 'MON_UNLOCK(&self->_m);', cc)
+        cc = rw('Stop(lock&&)').rewrite(cc)
+        src = POOL.replace('void Stop_locked(Pool* self)', 'void Stop_locked_decl(Pool* self)') + '''void F_StopLocked(Pool* self)
 __CPROVER_requires(__CPROVER_is_fresh(self, sizeof(*self)) && g_lock_held == 1 && MON_INV_OF(self))
 __CPROVER_assigns(self->_jobs_count, g.stopped, g_lock_held, g_notify_all, g.exit_stopped, g.exit_queued, g.exit_running, g_self)
 __CPROVER_ensures(self->_jobs_count == (OLD(self->_jobs_count) | 1) && g.stopped == 1 && g_lock_held == 0 && g_notify_all == OLD(g_notify_all) + 1)
@@ -271,8 +295,13 @@ __CPROVER_ensures(g.exit_stopped == 1 && g.exit_queued == g.queued && g.exit_run
 { g_self = self; ''' + cc + '''}
 void harness(void) { ghost_havoc(); Pool* self; g_lock_held = 1; g_notify_all = 0; F_StopLocked(self); VF_CANARY("end"); }
 '''
-    out.append(Job('pool/Stop_locked', props, src, 'harness', enforce='F_StopLocked', replace=['notify_all'], funcs=[b_stopl],
-                   expect=[r'postcondition', r'monitor invariant'], meta={'fn': 'Stop(lock&&)'}))
+        out.append(Job('pool/Stop_locked', props, src, 'harness', enforce='F_StopLocked', replace=['notify_all'], funcs=[b_stopl],
+                       expect=[r'postcondition', r'monitor invariant'], meta={'fn': 'Stop(lock&&)'}))
+    for fn in (s_alive, s_submit, s_soft, s_stop, s_hard, s_loop, s_pred):
+        try:
+            fn()
+        except ExtractionBreak as e:      # one function outside the recipe leaves the other functions of the pool decided
+            ctx.breaks.append(str(e))
     return out
 
 
